@@ -33,6 +33,8 @@ func scenarios(tier string) []sched.Scenario {
 		{Name: "leader-crash", Fault: "leader-crash", Clients: 2, PerCli: 1, SyncData: true},
 		{Name: "spurious-failover", Fault: "spurious-failover", Clients: 2, PerCli: 1, SyncData: true},
 		{Name: "swap", Fault: "swap", Clients: 2, PerCli: 1, SyncData: true},
+		{Name: "swap-unreachable", Fault: "swap-unreachable", Clients: 2, PerCli: 1, SyncData: true},
+		{Name: "lost-become-leader-response", Fault: "lost-become-leader-response", Clients: 2, PerCli: 1, SyncData: true},
 		{Name: "leader-swap", Fault: "leader-swap", Clients: 2, PerCli: 1, SyncData: true},
 		{Name: "leader-crash-restart", Fault: "leader-crash-restart", Clients: 2, PerCli: 1, SyncData: true},
 		{Name: "coord-crash", Fault: "coord-crash", Clients: 2, PerCli: 1, SyncData: true},
